@@ -225,6 +225,9 @@ PATTERNS = [
     # format specs and conversions are part of {}-formatting
     ('{dut_id}.{start_time_millis:013d}.rec', lambda rec: '%s.%013d.rec' % (rec.dut_id, rec.start_time_millis)),
     ('{dut_id!r}-{station_id:>6}.rec', lambda rec: '%r-%6s.rec' % (rec.dut_id, rec.station_id)),
+    # a %-template whose only conversion is the escaped percent sign, and one that mixes it with a field
+    ('yield_100%%.rec', 'yield_100%.rec'),
+    ('%(dut_id)s_100%%.rec', 'DUT1_100%.rec'),
 ]
 
 
